@@ -109,4 +109,24 @@ def build():
     ]
     b = body("pv::synth::string_from_chars", 1, tys, blocks)
     out[b.key] = b
+    # <Result<String, E> as FromIterator<Result<char, E>>>::from_iter(I): push every Ok(c), stop at the first Err
+    # locals: 0 ret Result<String,E>, 1 iterator, 2 &mut iterator, 3 Option<Result<char,E>>, 4 discr, 5 Result<char,E>,
+    #         6 discr, 7 String, 8 &mut String, 9 char, 10 unit, 11 E
+    RES = "core::result::Result"
+    tys = ["%s<alloc::string::String, E>" % RES, "I", "&mut I", "core::option::Option<%s<char, E>>" % RES, "isize", "%s<char, E>" % RES, "isize", "alloc::string::String", "&mut alloc::string::String", "char", "()", "E"]
+    res_variants = [[0, 0, "Ok"], [1, 1, "Err"]]
+    blocks = [
+        block([assign(2, ref(1))], call("alloc::string::String::new", [], 7, 1)),
+        block([], call(NEXT, [cp(2)], 3, 2)),
+        block([assign(4, {"k": "discriminant", "place": P(3), "ty": tys[3], "variants": OPT_VARIANTS})], {"k": "switch", "discr": mv(4), "ty": "isize", "targets": [[0, 7], [1, 3]], "otherwise": 9, "span": SPAN}),
+        block([assign(5, use(some_payload(3, tys[5]))), assign(6, {"k": "discriminant", "place": P(5), "ty": tys[5], "variants": res_variants})], {"k": "switch", "discr": mv(6), "ty": "isize", "targets": [[0, 4], [1, 6]], "otherwise": 9, "span": SPAN}),
+        block([assign(9, use(cp(5, {"k": "downcast", "v": 0, "name": "Ok"}, {"k": "field", "i": 0, "ty": "char"}))), assign(8, ref(7))], call("alloc::string::String::push", [mv(8), mv(9)], 10, 5)),
+        block([], goto(1)),
+        block([assign(11, use(mv(5, {"k": "downcast", "v": 1, "name": "Err"}, {"k": "field", "i": 0, "ty": "E"}))), assign(0, {"k": "aggregate", "agg": "adt", "adt": RES, "adt_full": tys[0], "variant": 1, "variant_name": "Err", "discr": 1, "is_enum": True, "active_field": None, "ops": [mv(11)]})], {"k": "return"}),
+        block([assign(0, {"k": "aggregate", "agg": "adt", "adt": RES, "adt_full": tys[0], "variant": 0, "variant_name": "Ok", "discr": 0, "is_enum": True, "active_field": None, "ops": [mv(7)]})], {"k": "return"}),
+        block([], {"k": "unreachable"}),
+        block([], {"k": "unreachable"}),
+    ]
+    b = body("pv::synth::result_string_from_results", 1, tys, blocks)
+    out[b.key] = b
     return out
